@@ -1,6 +1,8 @@
 """C15 — select() hits exactly the matching nodes; replace keeps the rest intact."""
 from __future__ import annotations
 
+import types
+
 import fiddle as fdl
 from fiddle._src import daglish
 from fiddle import selectors as fsel
@@ -41,11 +43,11 @@ MINIMUMS = {
 }
 
 FNS = [kinds.two, kinds.three, kinds.node, kinds.Base, kinds.Mid, kinds.Leaf, kinds.Other,
-       kinds.Base, kinds.Mid, kinds.Hooked]
+       kinds.Base, kinds.Mid, kinds.Hooked, kinds.Meth.cmake, kinds.MethSub.cmake]
 LEAVES = [0, 1, 'a', None, (1, 2), 2.5, kinds.Color.RED]
 SELECT_FNS = [kinds.Base, kinds.Base, kinds.Base, kinds.Mid, kinds.Mid, kinds.Leaf, kinds.Other,
               kinds.two, kinds.node, kinds.three,
-              kinds.VirtualBase, kinds.VirtualBase, kinds.Hooked]     # virtual subclasses (ABC)
+              kinds.VirtualBase, kinds.VirtualBase, kinds.Hooked, kinds.Meth.cmake, kinds.MethSub.cmake]     # virtual subclasses (ABC)
 BTYPES = {'Buildable': Buildable, 'Config': fdl.Config, 'Partial': fdl.Partial}
 
 
@@ -63,6 +65,8 @@ def model_matches(node: gen.B, F, match_sub, btype_name):
     return False
   if node.fn is F:
     return True
+  if isinstance(F, types.MethodType) and isinstance(node.fn, types.MethodType):
+    return node.fn == F           # bound methods: a new, equal object per attribute access
   return bool(match_sub and isinstance(F, type) and isinstance(node.fn, type)
               and issubclass(node.fn, F))
 
@@ -143,6 +147,9 @@ def run_case(rng, acc):
 
   for _ in range(3):
     F = rng.choice(SELECT_FNS)
+    if isinstance(F, types.MethodType):
+      F = getattr(F.__self__, F.__name__)     # as a user writes it: Layer.from_width (a fresh object)
+      acc.obs('selections_by_bound_method')
     match_sub = rng.random() < 0.6
     bt = rng.choice(['Buildable', 'Buildable', 'Config', 'Partial'])
     is_match = lambda n: model_matches(n, F, match_sub, bt)
